@@ -77,6 +77,9 @@ def draw_table(rng, config):
     if rng.random() < 0.3:
         # characters that str.splitlines() takes for line breaks but that are ordinary data in delimited files
         alphabet += ["\x0b", "\x0c", "\x1c", "\x85", "\u2028"]
+    if rng.random() < 0.15:
+        # characters that some tools treat as "not data": NUL, the byte order mark, the DOS end-of-file mark
+        alphabet += ["\x00", "\ufeff", "\x1a"]
     table = []
     columns = rng.randint(1, 4)
     for _ in range(rng.randint(0, 5)):
@@ -99,6 +102,8 @@ def generate(seed, tier):
         table = [row + ["x"] * (width - len(row)) for row in table]
     return {"io": simfs.IoConfig.draw(swarm), "config": config, "table": table, "via": via,
             "one_shot_rows": swarm.random() < 0.5,
+            # reading back with a validation limit: rows beyond it are returned all the same
+            "read_limit": swarm.choice([None, None, 0, 1, 2]),
             "explicit_skip": swarm.random() < 0.5,
             "target": swarm.choice(["stream", "path"]), "source": swarm.choice(["stream", "path"])}
 
@@ -151,7 +156,7 @@ def cid_for(config, width, explicit_skip):
     return lib.call(lib.load_cid, rows)
 
 
-def round_trip_validio(cid, table, fs, target, source, one_shot=False):
+def round_trip_validio(cid, table, fs, target, source, one_shot=False, read_limit=None):
     """Write through cutplace.Writer and read back through cutplace.rows under the same Cid."""
     import cutplace
 
@@ -185,7 +190,7 @@ def round_trip_validio(cid, table, fs, target, source, one_shot=False):
             reader_source = io.StringIO(text, newline="")
     else:
         reader_source = "out.csv" if source == "path" else fs.text_stream("out.csv", encoding="utf-8", newline="")
-    status, value = lib.call(lambda: lib.collect_rows(cutplace.rows(cid, reader_source)))
+    status, value = lib.call(lambda: lib.collect_rows(cutplace.rows(cid, reader_source, validate_until=read_limit)))
     return ("ok" if status == "ok" else "read-exc"), value
 
 
@@ -293,7 +298,9 @@ def execute(scenario):
             if cid_status == "exc":
                 raise core.Violation("loader-accepts-format-but-cid-does-not", _features(config, table), repr(cid))
             status, value = round_trip_validio(cid, table, fs, scenario["target"], scenario["source"],
-                                               scenario.get("one_shot_rows", False))
+                                               scenario.get("one_shot_rows", False), scenario.get("read_limit"))
+            if scenario.get("read_limit") is not None:
+                result.probe("read-back-with-validation-limit")
             result.probe("via-validating-writer-and-reader")
         else:
             status, value = round_trip(data_format, table, fs, scenario["target"], scenario["source"])
